@@ -984,7 +984,7 @@ def EC2d(mask):
             for l in range(ds3):
                 v0 = index + d3[l,0]
                 m = fpmask[v0]
-                if m and v0:
+                if m:
                     v1 = index + d3[l,1]
                     v2 = index + d3[l,2]
                     m = m * fpmask[v1] * fpmask[v2]
